@@ -147,8 +147,10 @@ Fixpoint table2 (tbl : list (N * N * N)) (k n : N) : N :=
 Definition mk_config_gen2 (f4 f8 : bool) (r : router) (prio : bool) (htbl : list (N * N * N)) (ctbl : list (N * N)) : config :=
   mkCfg r prio (table2 htbl) (fun k _ => table_fun ctbl (fun k => k) k)
         (fun k => k mod 5) (fun k => negb (k mod 7 =? 6)) f4 f8.
-Definition mk_config_gen (fixed : bool) := mk_config_gen2 fixed false.
-(* the rules of the tree as it stands *)
-Definition mk_config := mk_config_gen2 true false.
-(* with the candidate F8 fix (docs/notes/F8.patch) *)
-Definition mk_config_f8 := mk_config_gen2 true true.
+(* F4 switch only, F8 fix on *)
+Definition mk_config_gen (fixed : bool) := mk_config_gen2 fixed true.
+(* the rules of the tree as it stands: F4 fixed (700d6bc), F8 fixed (aa3c2d4) *)
+Definition mk_config := mk_config_gen2 true true.
+Definition mk_config_f8 := mk_config.
+(* the rule before the F8 fix, kept for the refutation example *)
+Definition mk_config_pre_f8 := mk_config_gen2 true false.
